@@ -290,6 +290,28 @@ k("K117", "C16", "client/connection.go", "\t\t\tif holder.conn != nil {\n\t\t\t\
   "field-init:connectionHolder.conn", "nil connection of a pending accept closed")
 k("K118", "C16", "client/server.go", "func (c *CqlServerConnection) Send(f *frame.Frame) error {\n\tif c.IsClosed() {\n\t\treturn fmt.Errorf(\"%v: connection closed\", c)\n\t}\n", "func (c *CqlServerConnection) Send(f *frame.Frame) error {\n",
   "closed-test:CqlServerConnection.Send", "send without the closed-flag test")
+# ---- C14
+k("K45", "C14", "datacodec/int.go", "\t\tif d == nil {\n\t\t\terr = ErrNilDestination\n\t\t} else if wasNull {\n\t\t\t*d = 0\n\t\t} else {\n\t\t\t*d = int64(val)\n\t\t}", "\t\tif d == nil {\n\t\t\terr = ErrNilDestination\n\t\t} else if !wasNull {\n\t\t\t*d = int64(val)\n\t\t}",
+  "null-dest:convertFromInt32 case *int64", "NULL leaves the destination untouched")
+k("K46", "C14", "datacodec/boolean.go", "\tcase *bool:\n\t\tif wasNil = s == nil; !wasNil {\n\t\t\tval = *s\n\t\t}", "\tcase *bool:\n\t\tval = *s\n\t\twasNil = s == nil",
+  "nil-source:convertToBoolean case *bool", "dereference before the nil test")
+k("K47", "C14", "datacodec/map.go", "\t\t\t\tif encodedValue == nil {\n\t\t\t\t\treturn nil, errNilMapValue()\n\t\t\t\t}\n", "",
+  "null-element:writeMap WriteShortBytes#2", "v2 writer reaches WriteShortBytes with a nil value")
+k("K119", "C14", "datacodec/int.go", "\t\t} else if wasNull {\n\t\t\t*d = 0\n\t\t} else {\n\t\t\t*d = int64(val)", "\t\t} else if wasNull {\n\t\t\t*d = -1\n\t\t} else {\n\t\t\t*d = int64(val)",
+  "null-dest:convertFromInt32 case *int64", "NULL stores a non-zero value")
+k("K120", "C14", "datacodec/blob.go", "\tcase *[]byte:\n\t\tif d == nil {\n\t\t\terr = ErrNilDestination\n\t\t} else if wasNull {", "\tcase *[]byte:\n\t\tif wasNull {",
+  "null-dest:convertFromBytes case *[]byte", "nil destination written through")
+k("K121", "C14", "datacodec/int.go", "\tif val, wasNil, err = convertToInt32(source); err == nil && !wasNil {", "\t_ = wasNil\n\tif val, wasNil, err = convertToInt32(source); err == nil {",
+  "encode-guard:intCodec.Encode", "nil source encoded as a value")
+k("K122", "C14", "datacodec/reflection.go", "\t\t\tif wasNull {\n\t\t\t\tzero := reflect.Zero(destValue.Elem().Type())\n\t\t\t\tdestValue.Elem().Set(zero)\n\t\t\t}\n", "",
+  "null-container:reflectDest", "NULL container leaves the destination untouched")
+k("K123", "C14", "datacodec/collection.go", "\t\tcase reflect.Slice, reflect.Array:\n\t\t\tif !wasNil {\n\t\t\t\text, err = newSliceExtractor(sourceValue)\n\t\t\t\tsize = sourceValue.Len()\n\t\t\t}", "\t\tcase reflect.Slice, reflect.Array:\n\t\t\t_ = wasNil\n\t\t\text, err = newSliceExtractor(sourceValue)\n\t\t\tsize = sourceValue.Len()",
+  "null-container:collectionCodec.createExtractor", "nil slice encoded as an empty collection")
+k("K124", "C14", "datacodec/varint.go", "\tval := readBigInt(source)\n\twasNull = val == nil\n", "\tval := readBigInt(source)\n\twasNull = false\n",
+  "decode-guard:varintCodec.Decode(nil)", "NULL varint reported as present")
+k("K125", "C14", "datacodec/injectors.go", "\tif valueWasNull {\n\t\tzero := reflect.Zero(elementType)\n\t\ti.dest.Index(index).Set(zero)\n\t} else {", "\tif valueWasNull {\n\t\t_ = reflect.Zero(elementType)\n\t} else {",
+  "null-element:sliceInjector.setElem(null)", "NULL element keeps the previous slice element")
+
 
 json.dump(C, open(os.path.join(os.path.dirname(os.path.abspath(__file__)), "controls.json"), "w"), indent=1)
 print(len(C), "controls")
